@@ -5,7 +5,7 @@ CONSTANTS
   Laws = {"gauss", "exp", "sersic"}
   Fixes = {"none", "center", "pa", "eps"}
   Modes = {"bilinear", "nearest", "linear_growth", "maxrit", "mean", "median"}
-  Frames = {"square", "wide", "tall", "nearleft", "nearbottom", "large"}
+  Frames = {"square", "wide", "tall", "nearleft", "nearbottom", "large", "largeleft", "largebottom"}
   Starts = {"near", "perp"}
   Emit = TRUE
 CHECK_DEADLOCK FALSE
